@@ -452,6 +452,8 @@ def run(ctx):
     three_way(ctx)
     import c17_pipeline
     c17_pipeline.run_pipeline(ctx)
+    import c17_files
+    c17_files.run_files_pipeline(ctx)
 
 
 def three_way(ctx):
